@@ -9,6 +9,10 @@ CHECK = {
     "parts": [
         {"name": "hostile", "pkg": "verifharness/prop/c07", "run": "^TestVerif_C07_Hostile$", "race": True, "timeout": {"quick": 1200, "thorough": 10800}},
         {"name": "ticks", "pkg": "verifharness/prop/c07", "run": "^TestVerif_C07_Hostile$", "instrument": _INSTR, "checkptr": False, "env": {"VERIF_TICKS": "1"}, "timeout": {"quick": 1200, "thorough": 10800}},
+        {"name": "rtmp", "pkg": "rtmp", "run": "^TestVerif_C07_Rtmp$", "race": True, "timeout": {"quick": 1200, "thorough": 10800}},
+        {"name": "rtmpticks", "pkg": "rtmp", "run": "^TestVerif_C07_Rtmp$", "instrument": _INSTR, "checkptr": False, "env": {"VERIF_TICKS": "1"}, "timeout": {"quick": 1200, "thorough": 10800}},
+        {"name": "ws", "pkg": "websocket", "run": "^TestVerif_C07_Ws$", "race": True, "timeout": {"quick": 1200, "thorough": 10800}},
+        {"name": "wsticks", "pkg": "websocket", "run": "^TestVerif_C07_Ws$", "instrument": _INSTR, "checkptr": False, "env": {"VERIF_TICKS": "1"}, "timeout": {"quick": 1200, "thorough": 10800}},
         {"name": "enums", "pkg": "verifharness/prop/c07", "run": "^TestVerif_C07_Enums$", "timeout": {"quick": 600, "thorough": 1800}},
     ],
     "assumptions": [
